@@ -302,3 +302,94 @@ Print Assumptions C07_ber_seq_forward_indefinite_refuted.
 Example C07_ber_forward_inhabited : ltac:(let T := type of Asn1V.Ber.BerExt.ex_forward in exact T).
 Proof. exact Asn1V.Ber.BerExt.ex_forward. Qed.
 Print Assumptions C07_ber_forward_inhabited.
+
+(** ------------------------------------------------------------------
+    OER: the WHOLE property as one statement (Oer/OerExtends.v).  [oext e1 e2 f t1 t2] (a decidable relation): version
+    2 is version 1 plus additions - SEQUENCE/SET additions and groups, CHOICE alternatives, ENUMERATED items - at any
+    set of extensible nodes at any depth: inside SEQUENCE/SET components, SEQUENCE OF elements, CHOICE alternatives,
+    tagged types, through references (two environments).  Forward: version 1 decodes every version-2 encoder output,
+    followed by any tail, to its view [oview] of the value (unknown additions dropped, unknown alternative ->
+    VUnknownChoice, unknown item -> VNone) consuming exactly the encoding; [oview] is the projection [oproj] of what
+    version 2 itself decodes (under [ostrict]: distinct component names, DEFAULTs that are their own projection).
+    Backward: version 2 decodes every version-1 output to the version-1 normal form.  Every strict prefix is rejected
+    with a decode error in both directions.
+    (statements = the types of the theorems of Oer/OerExtends.v; written out in notes/OER-extends.md) *)
+From Asn1V Require Oer.OerExtends Oer.OerExtendsEx.
+
+Theorem C07_oer_forward : ltac:(let T := type of Asn1V.Oer.OerExtends.oer_forward in exact T).
+Proof. exact Asn1V.Oer.OerExtends.oer_forward. Qed.
+Print Assumptions C07_oer_forward.
+
+Theorem C07_oer_forward_proj : ltac:(let T := type of Asn1V.Oer.OerExtends.oer_forward_proj in exact T).
+Proof. exact Asn1V.Oer.OerExtends.oer_forward_proj. Qed.
+Print Assumptions C07_oer_forward_proj.
+
+Theorem C07_oer_forward_commutes : ltac:(let T := type of Asn1V.Oer.OerExtends.oer_forward_commutes in exact T).
+Proof. exact Asn1V.Oer.OerExtends.oer_forward_commutes. Qed.
+Print Assumptions C07_oer_forward_commutes.
+
+Theorem C07_oer_backward : ltac:(let T := type of Asn1V.Oer.OerExtends.oer_backward in exact T).
+Proof. exact Asn1V.Oer.OerExtends.oer_backward. Qed.
+Print Assumptions C07_oer_backward.
+
+Theorem C07_oer_forward_truncation : ltac:(let T := type of Asn1V.Oer.OerExtends.oer_forward_truncation in exact T).
+Proof. exact Asn1V.Oer.OerExtends.oer_forward_truncation. Qed.
+Print Assumptions C07_oer_forward_truncation.
+
+Theorem C07_oer_backward_truncation : ltac:(let T := type of Asn1V.Oer.OerExtends.oer_backward_truncation in exact T).
+Proof. exact Asn1V.Oer.OerExtends.oer_backward_truncation. Qed.
+Print Assumptions C07_oer_backward_truncation.
+
+(** non-vacuity: four nodes of different depth extended at once (octets cross-checked on /repo) *)
+Example C07_oer_extends_inhabited : ltac:(let T := type of Asn1V.Oer.OerExtendsEx.oextends_inhabited in exact T).
+Proof. exact Asn1V.Oer.OerExtendsEx.oextends_inhabited. Qed.
+Print Assumptions C07_oer_extends_inhabited.
+
+(** ------------------------------------------------------------------
+    BER, forward direction as ONE inductive statement (Ber/BerExtends.v): [bextends numeric e1 e2 f t1 t2] - additions
+    at any set of extensible SEQUENCE / CHOICE / ENUMERATED nodes at any depth (SEQUENCE components and additions,
+    SEQUENCE OF / SET OF elements, EXPLICIT and IMPLICIT tags, CHOICE alternatives, references).  For EVERY
+    definite-length BER tree that version 2's X.690 reader accepts (in particular every BER and DER encoder output),
+    followed by any tail, the version-1 BER decoder returns the projection [bproj] and stops behind the encoding.
+    _partial: SET nodes are outside the relation (DER SET forward is refuted: finding
+    der-set-addition-sorted-before-known-component), the clause [alt_stable] excludes the nested untagged extensible
+    CHOICE (finding ber-untagged-extensible-choice-in-choice) and [bdef] excludes indefinite lengths (finding
+    ber-indefinite-length-unknown-additions); each exclusion has its _refuted example in Ber/BerExtendsEx.v.
+    Backward (Ber/BerExtendsBack.v): for every definite-length BER tree version 1's reader accepts, the version-2 BER
+    decoder returns [bup] - the version-1 value with the DEFAULTs of the new additions filled in at every node (not
+    behind an absent mandatory addition, as the library does) - and stops behind the encoding.
+    OPEN: SET nodes inside the relation; the other version's DER decoder at any depth.
+    (statements written out in notes/BER-extends.md) *)
+From Asn1V Require Ber.BerExtendsBase Ber.BerExtends Ber.BerExtendsEx Ber.BerExtendsBack Ber.BerExtendsBackEx.
+
+Theorem C07_ber_forward_tree_partial : ltac:(let T := type of Asn1V.Ber.BerExtends.ber_forward_tree_partial in exact T).
+Proof. exact Asn1V.Ber.BerExtends.ber_forward_tree_partial. Qed.
+Print Assumptions C07_ber_forward_tree_partial.
+
+Theorem C07_ber_forward_partial : ltac:(let T := type of Asn1V.Ber.BerExtends.ber_forward_partial in exact T).
+Proof. exact Asn1V.Ber.BerExtends.ber_forward_partial. Qed.
+Print Assumptions C07_ber_forward_partial.
+
+Theorem C07_der_encoding_ber_forward_partial : ltac:(let T := type of Asn1V.Ber.BerExtends.der_encoding_ber_forward_partial in exact T).
+Proof. exact Asn1V.Ber.BerExtends.der_encoding_ber_forward_partial. Qed.
+Print Assumptions C07_der_encoding_ber_forward_partial.
+
+Example C07_ber_extends_inhabited : ltac:(let T := type of Asn1V.Ber.BerExtendsEx.bextends_inhabited in exact T).
+Proof. exact Asn1V.Ber.BerExtendsEx.bextends_inhabited. Qed.
+Print Assumptions C07_ber_extends_inhabited.
+
+Theorem C07_ber_backward_tree_partial : ltac:(let T := type of Asn1V.Ber.BerExtendsBack.ber_backward_tree_partial in exact T).
+Proof. exact Asn1V.Ber.BerExtendsBack.ber_backward_tree_partial. Qed.
+Print Assumptions C07_ber_backward_tree_partial.
+
+Theorem C07_ber_backward_partial : ltac:(let T := type of Asn1V.Ber.BerExtendsBack.ber_backward_partial in exact T).
+Proof. exact Asn1V.Ber.BerExtendsBack.ber_backward_partial. Qed.
+Print Assumptions C07_ber_backward_partial.
+
+Theorem C07_der_encoding_ber_backward_partial : ltac:(let T := type of Asn1V.Ber.BerExtendsBack.der_encoding_ber_backward_partial in exact T).
+Proof. exact Asn1V.Ber.BerExtendsBack.der_encoding_ber_backward_partial. Qed.
+Print Assumptions C07_der_encoding_ber_backward_partial.
+
+Example C07_ber_backward_any_depth_inhabited : ltac:(let T := type of Asn1V.Ber.BerExtendsBackEx.ex_backward_any_depth in exact T).
+Proof. exact Asn1V.Ber.BerExtendsBackEx.ex_backward_any_depth. Qed.
+Print Assumptions C07_ber_backward_any_depth_inhabited.
